@@ -135,3 +135,12 @@ add("mg_fail_step", ["C04"], MG_SRC, "h_merger_fail_step", unwind=4, unwindset=M
     strength="B: one merger next with a failing merge function from an arbitrary state; 2 sources x <= 2 entries", functions=MG_FUNCS, assumptions=MG_ASSUME, replay="c04")
 add("mg_seek_step", ["C05", "C04"], MG_SRC, "h_merger_seek_step", unwind=4, unwindset=MG_UW, timeout=900, slice=2,
     strength="B: merger seek(k) then next from an arbitrary state; 2 sources x <= 2 entries, keys <= 1 byte (empty key included)", functions=MG_FUNCS, assumptions=MG_ASSUME, replay="c04")
+# ---------------------------------------------------------------- C15 compression wrappers
+C15_ASSUME = ["codec libraries replaced by their documented contracts (zlib deflate/inflate/deflateBound/deflateInit level range -1..9; LZ4_compressBound / LZ4_compress_default / _HC / LZ4_decompress_safe; ZSTD_compressBound / compress / getFrameContentSize / decompress; snappy max_compressed_length / compress / uncompress): success iff capacity >= true size, true size within the documented bound and >= n/1032; content equality is the codec's contract",
+              "input size any value <= 2^33 (above INT_MAX included), level any int, allocation never fails", "strcasecmp modelled by its definition"]
+add("c15_roundtrip", ["C15", "C18"], ["tu/compression_step.c", "$REPO/mtbl/fixed.c"], "h_c15_roundtrip", unwind=26, timeout=600, repo_assert="P", slice=4,
+    strength="U", functions=["mtbl_compress", "mtbl_compress_level", "mtbl_decompress", "_mtbl_compress_lz4", "_mtbl_compress_lz4hc", "_mtbl_compress_zstd", "_mtbl_compress_snappy",
+                             "_mtbl_compress_zlib", "_mtbl_decompress_lz4", "_mtbl_decompress_zstd", "_mtbl_decompress_snappy", "_mtbl_decompress_zlib"],
+    assumptions=C15_ASSUME + ["every assert() of compression.c is property-grade here (they never abort)"], replay="c15")
+add("c15_names", ["C15"], ["tu/compression_step.c", "$REPO/mtbl/fixed.c"], "h_c15_names", unwind=18, timeout=300,
+    strength="U", functions=["mtbl_compression_type_to_str", "mtbl_compression_type_from_str"], assumptions=["strcasecmp modelled by its definition; candidate strings of <= 7 characters"], replay="c15")
